@@ -10,6 +10,7 @@ type Route struct {
 }
 
 type scanfRoute struct {
+	req    string
 	Name   func(req string) (string, error)
 	Type   TypeName
 	Table  string
